@@ -1249,7 +1249,7 @@ func main() {
 			}
 		}
 		p := genParams(r, vh.Pick(r, flagChoices))
-		checkMatch(p, watch, t.msg, !cfg.Search && i%corrEvery == 0, "random")
+		checkMatch(p, watch, t.msg, !cfg.Search && i%corrEvery == 0 && p.Size <= 256, "random")
 	}
 	// fixed edge cases: no inputs/outputs, all shapes once under every flag
 	{
